@@ -864,3 +864,69 @@ Lemma serial_equals_parallel (c : cfg) (t : nat) (s : store)
   Merge (deal ntc asc orc) lc -> Merge (deal ntb asb orb) lb ->
   forall l, step_smp c t lc lb s l = step_serial c t s l.
 Proof. intros _. apply smp_threads_eq_serial. Qed.
+
+(* =========================================================================================== *)
+(* 6. Inner loop of a component: the result does not depend on the thread count / partition      *)
+(* =========================================================================================== *)
+Section InnerLoopProofs.
+  Context {M : Type} (op : M -> M -> M) (e : M).
+  Hypothesis op_assoc : forall a b c, op a (op b c) = op (op a b) c.
+  Hypothesis op_comm : forall a b, op a b = op b a.
+  Hypothesis op_unit : forall a, op e a = a.
+
+  Lemma fold_op_acc (l : list M) (a : M) : fold_left op l a = op a (fold_left op l e).
+  Proof.
+    revert a. induction l as [|x l IH]; intros a; cbn [fold_left].
+    - rewrite op_comm. symmetry. apply op_unit.
+    - rewrite IH. rewrite (IH (op e x)). rewrite op_unit. apply eq_sym. apply op_assoc.
+  Qed.
+
+  Lemma msum_cons (x : M) (l : list M) : msum op e (x :: l) = op x (msum op e l).
+  Proof. unfold msum. cbn [fold_left]. rewrite fold_op_acc. rewrite op_unit. reflexivity. Qed.
+
+  Lemma msum_app (l1 l2 : list M) : msum op e (l1 ++ l2) = op (msum op e l1) (msum op e l2).
+  Proof.
+    induction l1 as [|x l1 IH]; cbn [app].
+    - unfold msum at 2. cbn [fold_left]. rewrite op_unit. reflexivity.
+    - rewrite !msum_cons. rewrite IH. apply op_assoc.
+  Qed.
+
+  Lemma msum_perm (l l' : list M) : Permutation l l' -> msum op e l = msum op e l'.
+  Proof.
+    induction 1 as [|x l l' HP IH|x y l|l l' l'' HP1 IH1 HP2 IH2].
+    - reflexivity.
+    - rewrite !msum_cons. rewrite IH. reflexivity.
+    - rewrite !msum_cons. rewrite !op_assoc. rewrite (op_comm y x). reflexivity.
+    - congruence.
+  Qed.
+
+  Lemma reduce_chunks_concat (chunks : list (list M)) : reduce_chunks op e chunks = msum op e (concat chunks).
+  Proof.
+    unfold reduce_chunks. induction chunks as [|c r IH]; cbn [map concat].
+    - reflexivity.
+    - rewrite msum_cons. rewrite msum_app. rewrite IH. reflexivity.
+  Qed.
+
+  (* any partition of the terms into chunks, combined in any order *)
+  Lemma reduce_chunks_partition (chunks : list (list M)) (terms : list M) :
+    Permutation (concat chunks) terms -> reduce_chunks op e chunks = msum op e terms.
+  Proof. intros H. rewrite reduce_chunks_concat. apply msum_perm. exact H. Qed.
+
+  Lemma inner_loop_partition_independent (nt : nat) (assign : nat -> nat) (terms : list M) :
+    (forall k, k < length terms -> assign k < nt) -> inner_loop_value op e nt assign terms = msum op e terms.
+  Proof. intros H. unfold inner_loop_value. apply reduce_chunks_partition. apply deal_perm. exact H. Qed.
+End InnerLoopProofs.
+
+Lemma inner_loop_partition_independent_stmt (M : Type) (op : M -> M -> M) (e : M) :
+  (forall a b c, op a (op b c) = op (op a b) c) -> (forall a b, op a b = op b a) -> (forall a, op e a = a) ->
+  forall (nt : nat) (assign : nat -> nat) (terms : list M),
+  (forall k, k < length terms -> assign k < nt) -> inner_loop_value op e nt assign terms = msum op e terms.
+Proof. intros Ha Hc Hu nt assign terms H. apply inner_loop_partition_independent; auto. Qed.
+
+Lemma inner_loop_Z (nt : nat) (assign : nat -> nat) (terms : list Z) :
+  (forall k, k < length terms -> assign k < nt) -> inner_loop_value Z.add 0%Z nt assign terms = zsum terms.
+Proof.
+  intros H. unfold zsum. apply (inner_loop_partition_independent_stmt Z Z.add 0%Z); auto.
+  - intros a b c. apply Z.add_assoc.
+  - intros a b. apply Z.add_comm.
+Qed.
